@@ -264,6 +264,29 @@ def run(ctx):
                     except Exception as e:
                         H.violation("monkeytype.stubs:ModuleStub.render", "annotated:%s:%s" % (key, type(e).__name__), "stub of an annotated function does not parse / mirror it under %s" % strat.name,
                                     {"function": fn.__qualname__, "strategy": strat.name, "traced": bool(at)}, repr(e))
+        # dict arguments whose keys / whose parameter names cannot be written as class fields / class names (TypedDict generation on)
+        from monkeytype.typing import get_type
+        H.section("generated TypedDict classes are valid Python", "dict arguments with keys that are not identifiers / are keywords, parameters whose PascalCase form starts with a digit; max_typed_dict_size 3: the stub parses, one def per function",
+                  "4 values x 2 parameter names")
+        dsrc = "def send(headers, _1=None):\n    return 1\n\ndef _2fa(x):\n    return {'a': 1}\n"
+        name = "c12dict%d" % ctx["seed"]
+        with open(os.path.join(tmp, name + ".py"), "w") as f:
+            f.write(dsrc)
+        importlib.invalidate_caches()
+        mod = importlib.import_module(name)
+        for vi, value in enumerate(({"content-type": "x", "n": 1}, {"from": 1, "to": 2}, {"ok": 1, "also_ok": "s"}, {"1st": 1})):
+            for pname in ("headers", "_1"):
+                key = "td-names|%d|%s" % (vi, pname)
+                try:
+                    trs = [CallTrace(mod.send, {pname: get_type(value, 3)}, int), CallTrace(getattr(mod, "_2fa"), {"x": int}, get_type({"a": 1}, 3))]
+                    text = build_module_stubs_from_traces(trs, 3)[name].render()
+                    got = stub_functions(ast.parse(text))
+                    if sorted(got) != ["_2fa", "send"]:
+                        raise AssertionError("functions %s" % sorted(got))
+                    H.ok(key, sample={"value": repr(value), "parameter": pname, "stub_head": text[:160]})
+                except Exception as e:      # noqa
+                    H.violation("monkeytype.stubs:ModuleStub.render", "td-names:%s:%s" % (key, type(e).__name__), "the stub with generated TypedDict classes does not parse / is not produced",
+                                {"value": repr(value), "parameter": pname}, repr(e)[:300])
     finally:
         sys.path.remove(tmp)
         shutil.rmtree(tmp, ignore_errors=True)
